@@ -285,6 +285,7 @@ class Interp:
         self.depth = depth
         self.writes = []  # (Arr, op, idx tuple, rhs V/Tensor, loops snapshot, node)
         self.guards = []  # multiplicative guard markers (V) applying to accumulations
+        self.births = {}  # local name -> loop depth at its last plain assignment
         self.skip_if = set(self.hooks.get("skip_if", ()))
         self.seen_param_ifs = []
         self.inline = self.hooks.get("inline", {})
@@ -336,8 +337,10 @@ class Interp:
             raise Ret(self.ev(st.value) if st.value is not None else None)
         if isinstance(st, ast.Continue):
             raise AnalysisError("KEX: bare continue outside a recognised guard")
-        if isinstance(st, ast.Pass):
+        if isinstance(st, (ast.Pass, ast.Import, ast.ImportFrom)):
             return
+        if isinstance(st, ast.Raise):
+            raise AnalysisError("KEX: reached a raise statement on the analysed path: " + _short(st))
         self.err(st, "unsupported statement " + type(st).__name__)
 
     def if_(self, st):
@@ -464,6 +467,7 @@ class Interp:
             if isinstance(v, Arr) and v.desc.startswith("?"):
                 v.desc = target.id + v.desc[1:]
             self.env[target.id] = v
+            self.births[target.id] = len(self.loops)
             return
         if isinstance(target, ast.Tuple):
             if isinstance(v, (list, tuple)) and len(v) == len(target.elts):
@@ -484,12 +488,16 @@ class Interp:
             cur = self.ev(st.target)
             v = self.ev(st.value)
             # scalar reduction into a local over symbolic loops
+            if st.target.id in self.hooks.get("counters", ()):
+                self.env[st.target.id] = self.binop(st.op, cur, v, st)
+                return
             if isinstance(st.op, ast.Add) or isinstance(st.op, ast.Sub):
                 red = self.reduction_vars_scalar(st.target.id)
                 term = tov(v) if not isinstance(v, Tensor) else v
-                if red:
-                    for var in red:
-                        term = self.mul(term, sigma(var))
+                for var in red:
+                    term = self.mul(term, sigma(var))
+                for g in self.guards:
+                    term = self.mul(term, g)
                 self.env[st.target.id] = self.binop(st.op, cur, term, st)
                 return
             self.env[st.target.id] = self.binop(st.op, cur, v, st)
@@ -506,15 +514,8 @@ class Interp:
         self.err(st, "unsupported augassign target")
 
     def reduction_vars_scalar(self, name):
-        born = self.env.get("__born__" + name)
-        out = []
-        for k, lc in enumerate(self.loops):
-            if born is None or k >= born:
-                out.append(lc.var)
-        return out
-
-    def note_scalar_birth(self, name):
-        self.env["__born__" + name] = len(self.loops)
+        born = self.births.get(name, self.depth)
+        return [lc.var for lc in self.loops[born:]]
 
     def write(self, base, spec, op, v, node):
         if isinstance(base, Tensor):
